@@ -66,9 +66,23 @@ def pr_value(v):
     return repr(v)
 
 
+def pr_alias(t):
+    mods = ", ".join("%s = %s" % (k, v) for k, v in t.get("mods", []))
+    return "type %s = %s%s;" % (t["name"], t["base"], "(%s)" % mods if mods else "")
+
+
+def btype(case_or_types, cl):
+    """Builtin type a clause's type resolves to through the short-class aliases, or None (a model)."""
+    if cl.get("btype"):
+        return cl["btype"]
+    return cl["type"] if cl["type"] in BUILTIN else None
+
+
 def to_text(case):
     out = []
-    for c in case["classes"]:
+    types = case.get("types", [])
+    for i, c in enumerate(case["classes"]):
+        out += [pr_alias(t) for t in types if t["pos"] == i]
         out.append("model %s" % c["name"])
         for cl in c["decls"]:
             items = []
@@ -89,6 +103,7 @@ def to_text(case):
             out.append("equation")
             out += [pr_eq(q) for q in c["eqs"]]
         out.append("end %s;" % c["name"])
+    out += [pr_alias(t) for t in types if t["pos"] >= len(case["classes"])]
     return "\n".join(out) + "\n"
 
 
@@ -99,11 +114,20 @@ def flat_of(case):
     classes = {c["name"]: c for c in case["classes"]}
     order = {}
     n = 0
-    for c in case["classes"]:                 # parser: one counter over the file
+    types = case.get("types", [])
+    pending = False                            # parser.symbol_node is not None
+    for i, c in enumerate(case["classes"] + [None]):   # parser: one counter over the file
+        for t in types:
+            if (t["pos"] == i or (c is None and t["pos"] > i)) and t.get("mods") and not pending:
+                n += 1                         # parser.py:670-673: a modification outside a declaration
+                pending = True                 # ... creates ONE symbol, reused until a declaration ends
+        if c is None:
+            break
         for cl in c["decls"]:
             for it in cl["items"]:
                 order[(c["name"], it["name"])] = n
                 n += 1
+                pending = False
     syms, exprs = [], []
 
     def ren(e, pre):
@@ -129,12 +153,13 @@ def flat_of(case):
         c = classes[cname]
         for cl in c["decls"]:
             for it in cl["items"]:
-                if cl["type"] in BUILTIN:
+                bt = btype(case, cl)
+                if bt:
                     p = list(cl["prefixes"])
                     if pre:
                         p = [x for x in p if x not in ("input", "output")]   # nested: stripped
                     syms.append({"name": pre + it["name"], "order": order[(cname, it["name"])],
-                                 "prefixes": p, "type": cl["type"], "empty": it.get("dim") == 0})
+                                 "prefixes": p, "type": bt, "empty": it.get("dim") == 0})
                     for a in ("value", "start"):
                         if isinstance(it.get(a), list):
                             exprs.append(ren(it[a], pre))
@@ -346,7 +371,26 @@ def gen_type(rng):
     return "Real" if x < 0.58 else "Integer" if x < 0.70 else "Boolean" if x < 0.82 else "String"
 
 
-def gen_class(rng, name, helpers, nmin, nmax, allow_out_string):
+def gen_aliases(rng, n_classes):
+    """Short class definitions `type T = Real(...)`, also Integer/Boolean/String and alias of alias.
+    -> (types list, {builtin: [alias names]})"""
+    types, by = [], {}
+    if rng.random() < 0.45:
+        return types, by
+    mods = {"Real": [[], [["unit", '"m3/s"']], [["unit", '"m"'], ["min", "0"]], [["nominal", "2"]]],
+            "Integer": [[], [["max", "10"]]], "Boolean": [[], [["start", "true"]]], "String": [[]]}
+    for k in range(rng.randint(1, 4)):
+        bt = rng.choice(["Real", "Real", "Real", "Integer", "Boolean", "String"])
+        base = bt
+        if by.get(bt) and rng.random() < 0.35:
+            base = rng.choice(by[bt])                     # alias of alias
+        name = "T%s%d" % (bt[0], k)
+        types.append({"name": name, "base": base, "mods": rng.choice(mods[bt]), "pos": rng.randint(0, n_classes)})
+        by.setdefault(bt, []).append(name)
+    return types, by
+
+
+def gen_class(rng, name, helpers, nmin, nmax, allow_out_string, aliases=None):
     """helpers: list of (class name, [local referable names]) usable as component types."""
     decls, refs, arrays = [], [], {}
     k = 0
@@ -380,7 +424,11 @@ def gen_class(rng, name, helpers, nmin, nmax, allow_out_string):
             if typ != "String" and it.get("dim") != 0:
                 refs.append(nm)
             k += 1
-        decls.append({"prefixes": pre, "type": typ, "items": items})
+        cl = {"prefixes": pre, "type": typ, "items": items}
+        if aliases and aliases.get(typ) and rng.random() < 0.45:
+            cl["type"] = rng.choice(aliases[typ])
+            cl["btype"] = typ
+        decls.append(cl)
     return decls, refs, arrays
 
 
@@ -429,21 +477,22 @@ def gen_model(rng, allow_out_string=False):
     classes = []
     helpers = []
     nh = rng.choice([0, 0, 1, 1, 2])
+    types, aliases = gen_aliases(rng, nh + 1)
     for h in range(nh):
         name = "S%d" % (h + 1)
-        decls, refs, arrays = gen_class(rng, name, helpers if rng.random() < 0.6 else [], 1, 4, False)
+        decls, refs, arrays = gen_class(rng, name, helpers if rng.random() < 0.6 else [], 1, 4, False, aliases)
         p_der = rng.choice([0.0, 0.15, 0.3])
         eqs = [gen_eq(rng, refs, arrays, p_der) for _ in range(rng.randint(0, 3))] if refs else []
         classes.append({"name": name, "decls": decls, "eqs": eqs, "ieqs": []})
         helpers.append((name, [r for r in refs if r not in arrays]))
-    decls, refs, arrays = gen_class(rng, "M", helpers, 2, 9, allow_out_string)
+    decls, refs, arrays = gen_class(rng, "M", helpers, 2, 9, allow_out_string, aliases)
     p_der = rng.choice([0.05, 0.15, 0.25, 0.4])
     eqs = [gen_eq(rng, refs, arrays, p_der) for _ in range(rng.randint(1, 6))] if refs else []
     ieqs = [gen_eq_simple(rng, refs, arrays, 0.5) for _ in range(rng.randint(0, 2))] if refs and rng.random() < 0.4 else []
     # der() in a declaration equation / start attribute of a plain Real
     if refs:
         for cl in decls:
-            if cl["type"] == "Real" and not cl["prefixes"]:
+            if cl["type"] == "Real" and not cl["prefixes"]:      # (builtin Real only: aliases may carry start)
                 for it in cl["items"]:
                     if it.get("dim") is None and rng.random() < 0.12:
                         it["value" if rng.random() < 0.6 else "start"] = gen_expr(rng, refs, arrays, 2, 0.5)
@@ -451,19 +500,21 @@ def gen_model(rng, allow_out_string=False):
     pos = rng.randint(0, len(classes))               # main before / between / after the helpers
     classes.insert(pos, main)
     case = {"classes": classes, "main": "M", "kind": "random"}
+    if types:
+        case["types"] = types
     # AST-level injection on top-level elementary symbols: arbitrary prefix subsets and orders
     if rng.random() < 0.30:
         inj = {}
-        tops = [(cl, it) for cl in decls if cl["type"] in BUILTIN for it in cl["items"]]
+        tops = [(cl, it) for cl in decls if btype(case, cl) for it in cl["items"]]
         for cl, it in tops:
             if rng.random() < 0.5:
                 e = {}
                 if rng.random() < 0.6:
                     kws = [k for k in ("constant", "parameter", "input", "output", "discrete", "flow", "state")
                            if rng.random() < 0.25]
-                    if cl["type"] == "String" and "output" in kws and not ({"constant", "parameter", "input"} & set(kws)):
+                    if btype(case, cl) == "String" and "output" in kws and not ({"constant", "parameter", "input"} & set(kws)):
                         kws.remove("output")
-                    if cl["type"] == "String" and it.get("value") is not None and not ({"constant", "parameter"} & set(kws)):
+                    if btype(case, cl) == "String" and it.get("value") is not None and not ({"constant", "parameter"} & set(kws)):
                         kws.append(rng.choice(["constant", "parameter"]))     # a String with a binding stays a constant/parameter
                     rng.shuffle(kws)
                     e["prefixes"] = kws
@@ -509,6 +560,32 @@ def corpus_cases():
         "eqs": [["for", "i", 3, ["eq", D(R("v", "i")), ["lit", 1.0]]], ["eq", R("w", 1), D(R("w", 2))],
                 ["if", R("x"), ["eq", D(["op", "*", [R("p"), R("q")]]), ["lit", 1.0]], ["eq", R("q"), ["call", "sin", [D(R("x"))]]]]],
         "ieqs": []}], "main": "M", "kind": "corpus"})
+    # short-class type aliases (type Flow = Real(...)), alias of alias, nested AND top-level, with prefixes:
+    # only TOP-LEVEL input/output count (the coordinator's Pump/Plant example + every prefix on aliases)
+    def VA(pre, alias, bt, *names, **kw):
+        return {"prefixes": pre, "type": alias, "btype": bt, "items": [dict({"name": n}, **kw) for n in names]}
+    types = [{"name": "Flow", "base": "Real", "mods": [["unit", '"m3/s"'], ["min", "0"]], "pos": 0},
+             {"name": "Cnt", "base": "Integer", "mods": [], "pos": 1},
+             {"name": "Flag", "base": "Boolean", "mods": [["start", "true"]], "pos": 1},
+             {"name": "F2", "base": "Flow", "mods": [["max", "10"]], "pos": 2}]
+    Pump = {"name": "Pump", "decls": [V(["parameter"], "Real", "gain", value=0.5), VA(["input"], "Flow", "Real", "q_in"),
+                                       VA(["output"], "F2", "Real", "q_out"), V(["input"], "Real", "speed"),
+                                       V(["output"], "Real", "head"), VA([], "Flow", "Real", "store"),
+                                       VA(["parameter"], "Cnt", "Integer", "n", value=2), VA(["discrete", "output"], "Flag", "Boolean", "fl"),
+                                       VA(["discrete", "input"], "Cnt", "Integer", "ci")],
+            "eqs": [["eq", D(R("store")), ["op", "-", [R("q_in"), R("q_out")]]],
+                    ["eq", R("q_out"), ["op", "*", [R("gain"), R("speed"), R("store")]]],
+                    ["eq", R("head"), ["op", "*", [["lit", 2.0], R("store")]]]], "ieqs": []}
+    Plant = {"name": "M", "decls": [VA(["input"], "Flow", "Real", "demand"), V(["input"], "Real", "u"),
+                                    VA(["output"], "F2", "Real", "total"), V(["output"], "Real", "level"),
+                                    V([], "Pump", "p"), VA(["constant"], "Cnt", "Integer", "k", value=3),
+                                    VA(["parameter", "input"], "Flow", "Real", "pf", value=1.0),
+                                    VA(["output"], "Flag", "Boolean", "g"), VA(["flow"], "Flow", "Real", "arr", dim=2),
+                                    VA(["input"], "Flow", "Real", "e0", dim=0), V([], "Pump", "q")],
+             "eqs": [["eq", R("p.q_in"), R("demand")], ["eq", R("p.speed"), R("u")], ["eq", R("total"), R("p.q_out")],
+                     ["eq", D(R("level")), ["op", "+", [R("p.head"), D(["op", "*", [R("q.q_in"), R("q.ci")]])]]]], "ieqs": []}
+    out.append({"classes": [Pump, Plant], "main": "M", "types": types, "kind": "corpus"})
+    out.append({"classes": [Plant, Pump], "main": "M", "types": [dict(t, pos=2) for t in types], "kind": "corpus"})
     return out
 
 
@@ -622,7 +699,7 @@ def run(ctx):
     ctx.cov["distinct_nontrivial"] = len(nontrivial)
     ctx.cov["rule"] = ("%d fixed cases (hand-written corpus + finite table: 36 grammatical prefix combinations x 4 types x der?, "
                        "and all 128 subsets of 7 keywords x 4 types injected at AST level) + %d random flat models (0-2 helper "
-                       "classes, nested instances, arrays, for/if equations, der in expressions / initial equations / "
+                       "classes, short-class type aliases incl. alias of alias on nested and top-level symbols, nested instances, arrays, for/if equations, der in expressions / initial equations / "
                        "declaration equations / start attributes; 30%% with AST-injected prefixes and orders) + malformed; "
                        "non-trivial = valid case with >= 2 flat symbols, distinct by (symbol table, text)" % (n_fixed, n_rand))
     ctx.cov["samples"] = [cases[0]["text"], cases[n_fixed]["text"], cases[n_fixed + 1].get("inject") or cases[n_fixed + 1]["text"]]
